@@ -346,27 +346,44 @@ func (ex *Exec) bytesToInt(st *PState, buf *SliceV) *Term {
 	if c, ok := buf.Len.constInt(); ok {
 		var parts []*Term
 		n := c.Int64()
-		// all bytes are the big-endian encoding of one known integer: return it
-		if n > 0 {
-			var src *Term
-			okAll := true
-			for i := int64(0); i < n && okAll; i++ {
-				b, isT := ex.sliceElem(st, buf, ts.Int64(i)).(*Term)
-				if !isT {
-					okAll = false
-					break
-				}
-				p, has := ex.byteProv[b.id]
-				if !has || int64(p.n) != n || int64(p.i) != i || (src != nil && p.src != src) {
-					okAll = false
-					break
-				}
-				src = p.src
-			}
-			if okAll && src != nil {
-				return src
-			}
+		// runs of bytes that are the complete big-endian encoding of a known integer are replaced
+		// by that integer
+		elems := make([]*Term, n)
+		for i := int64(0); i < n; i++ {
+			elems[i], _ = ex.sliceElem(st, buf, ts.Int64(i)).(*Term)
 		}
+		for i := int64(0); i < n; {
+			b := elems[i]
+			if b == nil {
+				fail("non-integer byte in slice")
+			}
+			if p, has := ex.byteProv[b.id]; has && p.i == 0 && i+int64(p.n) <= n {
+				okRun := true
+				for k := 1; k < p.n; k++ {
+					e := elems[i+int64(k)]
+					if e == nil {
+						okRun = false
+						break
+					}
+					pk, hk := ex.byteProv[e.id]
+					if !hk || pk.src != p.src || pk.n != p.n || pk.i != k {
+						okRun = false
+						break
+					}
+				}
+				if okRun {
+					parts = append(parts, ts.Mul(ts.Int(pow2(uint(8*(n-i-int64(p.n))))), p.src))
+					i += int64(p.n)
+					continue
+				}
+			}
+			parts = append(parts, ts.Mul(ts.Int(pow2(uint(8*(n-1-i)))), b))
+			i++
+		}
+		if len(parts) == 0 {
+			return ts.Int64(0)
+		}
+		return ts.Add(parts...)
 		for i := int64(0); i < n; i++ {
 			b := ex.sliceElem(st, buf, ts.Int64(i)).(*Term)
 			parts = append(parts, ts.Mul(ts.Int(pow2(uint(8*(n-1-i)))), b))
